@@ -239,6 +239,28 @@ def _timezone_name(ctx, m):
                           file=FZ, line=r.lineno, engine='E6')
     if norm(lp.iter) in ('list(tz_rmap.items())', 'tz_rmap.items()'):
         ctx.ob('C17.D3', 'the scan ranges over the mapped zones only', True, '%s:%d' % (FZ, lp.lineno))
+    # every return of a zone must be one of the three justified ones (fast path, UTC shortcut, guarded scan)
+    justified = set()
+    for r in rets:
+        justified.add(id(r))
+    for n in walk_no_nested(fn):
+        if isinstance(n, ast.Return) and isinstance(n.value, ast.Constant) and n.value.value == 'UTC':
+            justified.add(id(n))
+    tries0 = [x for x in body if isinstance(x, ast.Try)]
+    if tries0:
+        for n in ast.walk(tries0[0]):
+            if isinstance(n, ast.Return) and norm(n.value) == 'tz_rmap[tz_name]':
+                justified.add(id(n))
+    for n in walk_no_nested(fn):
+        if isinstance(n, ast.Return) and id(n) not in justified and n.value is not None:
+            ctx.violation('C17.D3', '%s::timezone_name' % FZ, norm(n),
+                          'two fixed-offset values with the same offset on either side of a DST change of the first matching '
+                          'zone (e.g. -10:00 in January, then -10:00 in July): the second is written with the zone found for '
+                          'the first (`%s`), whose offset at that instant differs -- the written stamp denotes another '
+                          'offset/zone than the value' % norm(n.value),
+                          'timezone_name returns `%s` without the test that the zone\'s offset at this instant equals the '
+                          'value\'s offset (a remembered/looked-up zone is only valid for the instant it was found at)'
+                          % norm(n.value), file=FZ, line=n.lineno, engine='E6')
     # fast path
     tries = [x for x in body if isinstance(x, ast.Try)]
     if tries and [norm(x) for x in tries[0].body] == ['tz_name = %s.tzinfo.zone' % dt, 'return tz_rmap[tz_name]']:
